@@ -34,13 +34,18 @@ def one(rng, method, pool, variant, size='small', flags=None, perturb=None):
         pairs, maxlog2, out = rng.choice([8, 24, 48]), rng.choice([10, 16, 18]), rng.choice([1, 4, 16])
     elif size == 'many':
         pairs, maxlog2, out = 512, 12, 512
+    elif size == 'crowd':
+        # many workers polling at once (no polling pool), many requests outstanding while new ones are submitted
+        pairs, maxlog2, out = rng.choice([128, 192]), 10, rng.choice([96, 128])
     else:  # big messages
         pairs, maxlog2, out = rng.choice([12, 24]), 22, rng.choice([2, 6])
     threads = rng.choice([2, 3, 4]) if size != 'many' else 4
+    if size == 'crowd':
+        threads = 8
     if pool:
         threads = max(threads, 3)   # one PU goes to the polling pool; keep two default-pool workers
     pollsize = rng.choice([1, 8, 8, 32])
-    rounds = rng.choice([1, 2])
+    rounds = rng.choice([1, 2]) if size != 'crowd' else 3
     p = perturb if perturb is not None else rng.choice([0, 100, 300])
     return [rng.below(1 << 30), p, m, pool, pairs, maxlog2, out, pollsize, variant, rounds,
             f'--pika:threads={threads}', '--pika:bind=none']
@@ -60,6 +65,8 @@ def runs(rng, tier):
                     out.append(one(rng, method, pool, variant))
                 out.append(one(rng, method, pool, 'normal', size='big'))
                 out.append(one(rng, method, pool, 'normal', size='many'))
+            out.append(one(rng, method, 0, 'normal', size='crowd'))
+            out.append(one(rng, method, 0, 'err', size='crowd'))
     else:
         for method in METHODS:
             for pool in (0, 1):
@@ -67,6 +74,8 @@ def runs(rng, tier):
                 out.append(one(rng, method, pool, 'err' if pool == 0 else rng.choice(['err', 'throw', 'early'])))
         out.append(one(rng, rng.choice(list(METHODS)), rng.below(2), 'normal', size='big'))
         out.append(one(rng, rng.choice(['new_task', 'continuation', 'suspend_resume']), 0, 'normal', size='many'))
+        for method in ('continuation', 'new_task', 'suspend_resume'):
+            out.append(one(rng, method, 0, 'normal', size='crowd'))
     return out
 
 
